@@ -66,7 +66,7 @@ theorem events_ok (cfg : Cfg) (pol : Policy) (fuel : Nat) (hist : List (Oid × O
 
 theorem judgeStep_nil {bb : Option Name} {P : List Obj} {w1 : World} {r : StepRec} (h : StepOK bb P w1 r) :
     judgeStep bb P r = [] := by
-  simp [judgeStep, clauses, h.nocrash, h.known, h.euid, h.uid, h.creation, h.noeuid, h.exportc, h.asked]
+  simp [judgeStep, clauses, h.nocrash, h.known, h.euid, h.uid, h.creation, h.noeuid, h.exportc, h.asked, h.bind]
 
 theorem judgeFrom_nil {bb : Option Name} :
     ∀ (trace : List StepRec) (P : List Obj) (i : Nat), TraceOK bb P trace → judgeFrom bb P i trace = [] := by
@@ -184,6 +184,7 @@ theorem euidClause_explained {P S : List Obj} {r : StepRec} (h : euidClause P r 
   | dest _ => simp [hop] at h2
   | reload _ => simp [hop] at h2
   | via _ _ => simp [hop] at h2
+  | bind _ _ => simp [hop] at h2
 
 /-- An object's uid differs from the snapshot before the step only if it was (re)created in this step or the step is
     an export_uid onto it that returned 1, by an actor whose euid was not 0, while the object's own euid was 0; the
@@ -218,6 +219,7 @@ theorem uidClause_explained {P S : List Obj} {r : StepRec} (h : uidClause P r = 
   | dest _ => simp [hop] at this
   | reload _ => simp [hop] at this
   | via _ _ => simp [hop] at this
+  | bind _ _ => simp [hop] at this
 
 /-- Every object announced by a create() was made by a load/clone of an actor that is the master or has an euid,
     after creator_file answered without error, with uid = the answer ("NONAME" for a non-string) and euid 0 - or,
